@@ -3758,6 +3758,12 @@ impl KotoVm {
                         break;
                     }
 
+                    // The call is being abandoned, so it doesn't produce a result: the calling
+                    // frame's result register keeps the value that it had when the error was thrown.
+                    if let [.., caller, _] = self.call_stack.as_mut_slice() {
+                        caller.return_value_register = None;
+                    }
+
                     self.pop_frame(KValue::Null)?;
 
                     if !self.call_stack.is_empty() {
